@@ -81,15 +81,20 @@ Section WithRegistry.
     | _ => if contains c_colon rf then valid_digest rf else valid_tag rf
     end.
 
-  (* Repository.ParseReference with base reference (breg, brepo) *)
-  Definition repo_parse (breg brepo : str) (s : str) : option reference :=
+  (* Repository.ParseReference with base reference (breg, brepo).  [strict] = the code after the
+     fix "rejects a malformed path in front of '@digest'": what precedes the '@' in the fallback
+     branch must not contain a slash.  [strict = false] is the code before that fix, kept for the
+     refuted theorem. *)
+  Definition repo_parse_gen (strict : bool) (breg brepo : str) (s : str) : option reference :=
     let res :=
       match parse s with
       | Some r =>
           if str_eqb (r_registry r) breg && str_eqb (r_repository r) brepo then Some r else None
       | None =>
           match split_first c_at s with
-          | Some (_, d) => if valid_digest d then Some (mkRef breg brepo d) else None
+          | Some (j, d) =>
+              if strict && contains c_slash j then None
+              else if valid_digest d then Some (mkRef breg brepo d) else None
           | None => if validate_reference s then Some (mkRef breg brepo s) else None
           end
       end in
@@ -97,6 +102,8 @@ Section WithRegistry.
     | Some r => match r_reference r with [] => None | _ => Some r end
     | None => None
     end.
+  Definition repo_parse := repo_parse_gen true.
+  Definition repo_parse_prefix := repo_parse_gen false.
 End WithRegistry.
 
 (* URL builders of registry/remote/url.go, as byte strings *)
